@@ -229,8 +229,10 @@ static void c05_raw_history (long start, const int *ks, int depth)
 
 /* ---------------------------------------------------------------------------------------- C05 writes */
 
+static int c05_back ;	/* before the last write of the history the write pointer goes back into the data: that write overlaps the end (or stays inside) */
+
 static void c05_write_history (const Fmt *f, int ch, int type, const int *ks, int depth, int var, int raw)
-{	SF_INFO info ; SNDFILE *sf ; int rate = fmt_default_rate (f), B = fmt_block (f, ch, rate), rc ; long p = 0 ; uint64_t oh = VL_H0 ;
+{	long total = 0 ;	SF_INFO info ; SNDFILE *sf ; int rate = fmt_default_rate (f), B = fmt_block (f, ch, rate), rc ; long p = 0 ; uint64_t oh = VL_H0 ;
 	const char *rs = rt_sig ("%s|%s", rt_fam (f), rt_chclass (ch)) ; PeekState pk ;
 	md_reset (&dev) ; rt_info (&info, f, ch, rate) ;
 	sf = md_open (&dev, SFM_WRITE, &info) ;
@@ -240,6 +242,12 @@ static void c05_write_history (const Fmt *f, int ch, int type, const int *ks, in
 	{	long S = 8192 / type_size [type] / ch, k ; sf_count_t w ; long wf ; int fvar = (var + i) & 1, e, bw = pk.blockwidth ;
 		void *buf ;
 		switch (ks [i]) { case 0 : k = 1 ; break ; case 1 : k = 3 ; break ; case 2 : k = B > 2 ? B - 1 : 2 ; break ; case 3 : k = B > 1 ? B + 1 : 7 ; break ; default : k = S + 1 ; break ; }
+		if (c05_back && i == depth - 1 && p > 1)
+		{	sf_count_t r, target = c05_back == 1 ? p / 2 : p - 1 ; INLIB (r = sf_seek (sf, target, SEEK_SET)) ;
+			vl_note ("C05 seek back to %lld -> %lld", (long long) target, (long long) r) ;
+			if (r != target) { vl_violation (rt_sig ("%s|write-mode-seek", rs), "sf_seek (%lld, SEEK_SET) inside the written data of a write handle returned %lld", (long long) target, (long long) r) ; break ; }
+			p = target ;
+			}
 		if (raw)
 		{	buf = malloc (k * bw) ; memset (buf, 0x11 + i, k * bw) ;	/* exact size: an over-read is an ASan report */
 			INLIB (w = sf_write_raw (sf, buf, k * bw)) ;
@@ -260,13 +268,23 @@ static void c05_write_history (const Fmt *f, int ch, int type, const int *ks, in
 		INLIB (e = sf_error (sf)) ;
 		if (e != 0) vl_violation (rt_sig ("%s|write-sets-error", rs), "write set error %d (%s)", e, sf_error_number (e)) ;
 		pk_get (sf, &pk, 0) ;
-		if (pk.write_current != p + wf || pk.frames != p + wf)
-			vl_violation (rt_sig ("%s|write-position-advance", rs), "after accepting %ld frames at %ld: write position %lld, frame count %lld", wf, p, (long long) pk.write_current, (long long) pk.frames) ;
+		if (p + wf > total) total = p + wf ;
+		if (pk.write_current != p + wf || pk.frames != total)
+			vl_violation (rt_sig ("%s|write-position-advance", rs), "after accepting %ld frames at %ld: write position %lld, frame count %lld (expected %ld)", wf, p, (long long) pk.write_current, (long long) pk.frames, total) ;
+		{	SF_INFO cur ; memset (&cur, 0, sizeof (cur)) ; INLIB (sf_command (sf, SFC_GET_CURRENT_SF_INFO, &cur, sizeof (cur))) ;
+			if (cur.frames != total) vl_violation (rt_sig ("%s|current-info-frames", rs), "SFC_GET_CURRENT_SF_INFO reports %lld frames after writes that reach frame %ld", (long long) cur.frames, total) ;
+			}
 		p += wf ; oh = vl_hash_u64 (w, oh) ;
 		vl_count_transitions (1) ;
 		}
 	INLIB (rc = sf_close (sf)) ;
 	if (rc != 0) vl_violation (rt_sig ("%s|close-nonzero", rs), "sf_close returned %d", rc) ;
+	if (c05_back && ! raw)
+	{	/* the closed file holds exactly the frames the writes reached */
+		SF_INFO ri ; md_rewind (&dev) ; rt_info_read (&ri, f, ch, rate) ; sf = md_open (&dev, SFM_READ, &ri) ;
+		if (! sf) vl_violation (rt_sig ("%s|reopen-failed", rs), "%s", sf_strerror (NULL)) ;
+		else { if (ri.frames != total && B <= 1) vl_violation (rt_sig ("%s|closed-frames", rs), "the closed file has %lld frames, the writes reached frame %ld", (long long) ri.frames, total) ; INLIB (sf_close (sf)) ; }
+		}
 	vl_end (1, vl_hash_u64 (md_hash (&dev), oh)) ;
 }
 
@@ -390,6 +408,14 @@ static void run_c05 (void)
 					if (vl_case ("C05 W fmt=%s ch=%d type=%s k=%d,%d,%d var=%d", f->name, ch, type_names [type], ks [0], ks [1], ks [2], var))
 					{	vl_root_count (f->name) ; c05_write_history (f, ch, type, ks, 3, var, 0) ; }
 					}
+			/* ---- the last write starts inside the data written so far (write-mode seek): it ends before, at or behind the old end ---- */
+			if (f->gran && (f->format & SF_FORMAT_SUBMASK) != SF_FORMAT_DPCM_8 && (f->format & SF_FORMAT_SUBMASK) != SF_FORMAT_DPCM_16)
+				for (int type = 0 ; type < T_NTYPES ; type++) for (int var = 0 ; var < 2 ; var++) for (int back = 1 ; back <= 2 ; back++)
+					for (int code = 0 ; code < 10 ; code++)
+					{	int ks [3] = { 1, code < 5 ? 3 : 4, code % 5 } ;
+						if (vl_case ("C05 WB fmt=%s ch=%d type=%s k=%d,%d,%d var=%d back=%s", f->name, ch, type_names [type], ks [0], ks [1], ks [2], var, back == 1 ? "half" : "one"))
+						{	vl_root_count (f->name) ; c05_back = back ; c05_write_history (f, ch, type, ks, 3, var, 0) ; c05_back = 0 ; }
+						}
 			if (f->gran && (f->format & SF_FORMAT_SUBMASK) != SF_FORMAT_DPCM_8 && (f->format & SF_FORMAT_SUBMASK) != SF_FORMAT_DPCM_16)
 				for (int code = 0 ; code < 25 ; code++)
 				{	int ks [3] = { code % 5, code / 5, 0 } ;
